@@ -25,8 +25,8 @@ type Profile struct {
 	Tests                  bool // names ending in "test", testonly tags
 	UserTags               bool
 	Platforms              bool // platform selectors on some targets
-	SleepMs                int // max per-target latency
-	EdgeProb               int // percent
+	SleepMs                int  // max per-target latency
+	EdgeProb               int  // percent
 }
 
 func DefaultProfile() Profile {
